@@ -3,6 +3,7 @@ CONSTANTS
   Bug = "none"
   Sweeps = {"small"}
   PairDepth = 2
+  NearDepth = 2
   DeepDepth = 3
   EmitCases = FALSE
 INIT Init
